@@ -41,6 +41,14 @@ CLAIMED = {
    text="compute_fixture_cycles is transcribed step by step into TLA+ (explicit-stack DFS, root order) and TLC evaluates it on every dependency graph of the table; the per-definition reference graph (layer R) decides soundness and completeness of every reported cycle and the scope rule; every (graph, registration order) is replayed on the real library with 3 additional fresh databases for run-to-run stability; the model must predict the implementation's exact output.",
    note="<= 3 fixture names over 4 files, all parameter lists, all registration orders of defining files; scope universe: 5 scopes x dependency defined at up to 4 places.",
    technique="TLA+ transcription of the DFS + case table (TLC) + replay with SCC / scope oracle"),
+ "C19": dict(level=MC, ref="DESIGN.md section 4 C19",
+   text="Lsp.tla specifies lastPublished per document under open/change notifications and the effective configuration; TLC enumerates every history x configuration variant and checks TracksLatest, RemovingCauseClears, ConfigExact, PartialConfigKeepsRest; every maximal history is one stdio session of the real server binary; after each notification the published diagnostics are compared with the specification's codes and with a library-level twin analysis of the same contents.",
+   note="2 documents x 4 versions (each cause introduced/removed, unparsable text), histories <= 3 (quick) / 4 (thorough), 21+ pyproject.toml variants incl. alternative TOML spellings; wrong value types are not judged.",
+   technique="TLA+ LSP-layer state machine (TLC) + sessions of the real binary validated step by step"),
+ "C20": dict(level=MC, ref="DESIGN.md section 4 C20",
+   text="Library level: get_unused_fixtures on every (layout, order) of the Layouts table vs PyUnusedNames (layer R). Binary level: layouts materialised on disk (with a venv entry-point plugin), `fixtures unused` (text/json/exit status) and `fixtures list` (plain and both filters) run under RAYON_NUM_THREADS 1/4/16 and compared with layer R, across formats, filters and runs.",
+   note="CLI identifies fixtures by (file, name); quick tier samples 500 layouts by VERIF_SEED; workspace plugins (editable installs) not materialised here.",
+   technique="TLA+ case table (TLC) + CLI runs of the real binary on materialised trees"),
 }
 
 UNDER_CONSTRUCTION = "check under construction in this round (DESIGN.md section 8); not yet claimed"
